@@ -269,6 +269,24 @@ func (n *Net) roundTrip(req *http.Request) (*http.Response, error) {
 	return n.deliver(req, st, x, f, resp)
 }
 
+// transportWouldReplay mirrors net/http's rule for retrying a request on a new
+// connection (Request.isReplayable): replayable body and an idempotent method
+// or an idempotency-key header.
+func transportWouldReplay(req *http.Request) bool {
+	if req.Body != nil && req.Body != http.NoBody && req.GetBody == nil {
+		return false
+	}
+	switch req.Method {
+	case "GET", "HEAD", "OPTIONS", "TRACE":
+		return true
+	}
+	if _, ok := req.Header["Idempotency-Key"]; ok {
+		return true
+	}
+	_, ok := req.Header["X-Idempotency-Key"]
+	return ok
+}
+
 func coding(h http.Header) (string, string) {
 	if v := h.Get("Content-Encoding"); v != "" {
 		return strings.ToLower(strings.TrimSpace(v)), "Content-Encoding"
@@ -311,6 +329,24 @@ func (n *Net) deliver(req *http.Request, st *Stream, x *Xchg, f *Fault, resp *hx
 	case FDrop:
 		x.Fault = FDrop
 		fault(FDrop)
+		if n.Requests > 1 && transportWouldReplay(req) {
+			// What net/http's Transport does (documented on http.Transport): a
+			// request that failed on a re-used keep-alive connection before any
+			// response byte arrived is sent again on a fresh connection when it is
+			// replayable (no body, or GetBody set) and idempotent — GET, HEAD,
+			// OPTIONS, TRACE, or carrying an Idempotency-Key / X-Idempotency-Key
+			// header. The caller never learns of the first attempt.
+			fault("transport-replays-idempotent-request")
+			r2 := req.Clone(ctx)
+			if req.GetBody != nil {
+				b, err := req.GetBody()
+				if err != nil {
+					return nil, &netErr{"simulated: connection reset while reading the response"}
+				}
+				r2.Body = b
+			}
+			return n.roundTrip(r2)
+		}
 		return nil, &netErr{"simulated: connection reset while reading the response"}
 	case FTimeout:
 		if _, has := ctx.Deadline(); has {
